@@ -36,6 +36,7 @@ type Header struct {
 	Sweep     bool       `json:"sweep"`   // sweep registered filters after every step
 	NoObs     bool       `json:"noobs"`   // skip the full observation (large worlds)
 	GCEvery   int        `json:"gcEvery"` // force GC every n ops (0 = never)
+	Twin      string     `json:"twin"`    // "" | "reset" | "load": fork a twin world at Reset / Dump
 	Ops       []Op       `json:"ops"`
 }
 
@@ -94,6 +95,7 @@ type World struct {
 	events   []map[string]interface{}
 	lst      *recListener
 	valSeq   int
+	lastDump *ecs.EntityDump
 }
 
 type recListener struct {
@@ -509,6 +511,7 @@ func (x *World) observe() map[string]interface{} {
 		obsErr = append(obsErr, "Query(All()): "+allErr)
 	}
 	o := map[string]interface{}{
+		"pool":   x.poolDump(),
 		"issued": issued,
 		"alive":  alive,
 		"zeroAlive": func() (a bool) {
@@ -530,6 +533,34 @@ func (x *World) observe() map[string]interface{} {
 		"errs":   obsErr,
 	}
 	return o
+}
+
+// dumpRec renders an EntityDump; the generation of the reserved slot 0 (MaxUint32) is rendered as -1.
+func dumpRec(d *ecs.EntityDump) map[string]interface{} {
+	ents := make([][2]int, len(d.Entities))
+	for i, e := range d.Entities {
+		g := int(e.Generation())
+		if e.Generation() == ^uint32(0) {
+			g = -1
+		}
+		ents[i] = [2]int{int(e.ID()), g}
+	}
+	alive := make([]int, len(d.Alive))
+	for i, a := range d.Alive {
+		alive[i] = int(a)
+	}
+	return map[string]interface{}{"ents": ents, "alive": alive, "next": int(d.Next), "avail": int(d.Available), "ok": true}
+}
+
+// poolDump logs the entity pool as the public API exposes it (DumpEntities).
+func (x *World) poolDump() (res map[string]interface{}) {
+	defer func() {
+		if r := recover(); r != nil {
+			res = map[string]interface{}{"ents": [][2]int{}, "alive": []int{}, "next": 0, "avail": 0, "ok": false}
+		}
+	}()
+	d := x.w.DumpEntities()
+	return dumpRec(&d)
 }
 
 // sweep runs every live registered filter and its original, and logs both results.
